@@ -119,7 +119,7 @@ func (sc *scenario) fairEnv() {
 
 type roundInfo struct {
 	Outcome       string   `json:"outcome"`
-	Detail        string   `json:"detail"` // error text of the sync, truncated
+	Detail        string   `json:"detail"`        // error text of the sync, truncated
 	DepWrites     int      `json:"depWrites"`     // accepted writes to children / ControllerRevisions
 	ChildWrites   int      `json:"childWrites"`   // accepted writes to children only
 	ContentWrites []string `json:"contentWrites"` // children created/deleted/changed in content (resource/name:verb)
@@ -578,6 +578,12 @@ func runFaults(r *vs.Rand, i int, seed uint64, out *vs.Out) {
 	foreign := false
 	// the faulty run ended with the parent pending deletion and no longer carrying the controller's finalizer: from then on
 	// nothing is reconciled for it (the dying-parent guard of C10), whatever the fault left behind
+	// now and then the hook is down for seventeen syncs in a row (a parent that keeps failing must keep being retried)
+	hookDownRounds := 0
+	nRounds := 9
+	if r.Chance(8) {
+		hookDownRounds, nRounds = 17, 24
+	}
 	released := false
 	// ... or alive, outside the parent selector and no longer carrying the finalizer (finalize on deselect): the controller
 	// ignores such a parent, so whatever the sync that removed the finalizer could not finish is never retried (F-C12-1)
@@ -664,8 +670,16 @@ func runFaults(r *vs.Rand, i int, seed uint64, out *vs.Out) {
 				sc.w.sim.FaultAt = map[int][2]string{pos: fk}
 			}
 		}
-		for k := 0; k < 9; k++ {
+		origHandler := sc.w.hook.Handler
+		for k := 0; k < nRounds; k++ {
 			var ri roundInfo
+			if fault && k < hookDownRounds {
+				sc.w.hook.Handler = func(name string, req map[string]interface{}) vs.HookAnswer {
+					return vs.HookAnswer{Code: 500, Body: []byte("hook is down")}
+				}
+			} else {
+				sc.w.hook.Handler = origHandler
+			}
 			if fault {
 				_, ri = sc.round(i, seed, k, true, out, "faults")
 			} else {
@@ -873,7 +887,10 @@ func runInterleave(r *vs.Rand, i int, seed uint64, out *vs.Out) {
 		out.Line(first)
 	}
 	// candidates: children named p1-*
-	type ref struct{ c childSpec; ns, name string }
+	type ref struct {
+		c        childSpec
+		ns, name string
+	}
 	var kids []ref
 	for _, c := range cfg.Children {
 		for _, o := range w.sim.List(c.group(), c.Resource) {
